@@ -280,13 +280,20 @@ class Agg:
 # worker
 # --------------------------------------------------------------------------------------------
 
+OPT_SLICE_MOD = 10  # run indices i with i % 10 == 9 are executed under ``python -O``
+
+
+def in_opt_slice(i: int) -> bool:
+    return i % OPT_SLICE_MOD == OPT_SLICE_MOD - 1
+
+
 STOP_AFTER_CANDIDATES = 4
 GRACE_AFTER_FIRST_S = 12.0
 
 
 def _worker(mod: Any, tier: str, verif_seed: int, n_runs: int, deadline: float, counter: Any,
             stop: Any, first_t: Any, known_list: list[known.Known], keep_digests: bool,
-            out_fd: int) -> None:
+            out_fd: int, slice_: str = "all") -> None:
     agg = Agg()
     try:
         while True:
@@ -304,6 +311,8 @@ def _worker(mod: Any, tier: str, verif_seed: int, n_runs: int, deadline: float, 
                 if i >= n_runs:
                     break
                 counter.value = i + 1
+            if (slice_ == "opt" and not in_opt_slice(i)) or (slice_ == "normal" and in_opt_slice(i)):
+                continue  # the other launcher (other interpreter mode) runs this index
             seed = rng.run_seed(verif_seed, mod.PROP, i)
             try:
                 res = in_fork(_run_seed, mod, seed, tier, i)
@@ -328,7 +337,7 @@ def _worker(mod: Any, tier: str, verif_seed: int, n_runs: int, deadline: float, 
 
 
 def run_batch(mod: Any, tier: str, verif_seed: int, n_runs: int, budget_s: float, workers: int,
-              keep_digests: bool = False) -> Agg:
+              keep_digests: bool = False, slice_: str = "all") -> Agg:
     known_list = known.load(mod.PROP)
     ctx = mp.get_context("fork")
     counter = ctx.Value("q", 0)
@@ -342,7 +351,7 @@ def run_batch(mod: Any, tier: str, verif_seed: int, n_runs: int, budget_s: float
         if pid == 0:
             os.close(r)
             _worker(mod, tier, verif_seed, n_runs, deadline, counter, stop, first_t, known_list,
-                    keep_digests, w)
+                    keep_digests, w, slice_)
             os._exit(0)
         os.close(w)
         procs.append((pid, r))
@@ -451,6 +460,7 @@ def write_replay(mod: Any, seed: int, vio: dict[str, Any], minimal: dict[str, An
             "plan": minimal,
             "original_plan": vio["plan"],
             "original_digest": vio.get("digest"),
+            "interpreter_optimize": int(bool(sys.flags.optimize)),
         }, f, indent=1, sort_keys=True)
     return path
 
@@ -548,9 +558,20 @@ def main(argv: list[str]) -> int:
     ap.add_argument("--digests-out", default=None,
                     help="write {run index: event-log digest} here (determinism self-test)")
     ap.add_argument("--no-evidence", action="store_true")
+    ap.add_argument("--slice", default="auto", choices=["auto", "all", "normal", "opt"],
+                    help="(internal) which run indices this launcher executes; 'auto' = the normal "
+                         "slice here and the -O slice in a sub-launcher started with python -O")
+    ap.add_argument("--agg-out", default=None, help="(internal) pickle the aggregate here")
     a = ap.parse_args(argv)
 
-    env.reexec_with_fixed_hashseed(no_aslr=bool(a.replay))
+    replay_opt = None
+    if a.replay:
+        try:
+            with open(a.replay, encoding="utf-8") as f:
+                replay_opt = bool(json.load(f).get("interpreter_optimize", 0))
+        except (OSError, ValueError):
+            replay_opt = None
+    env.reexec_with_fixed_hashseed(no_aslr=bool(a.replay), optimize=replay_opt)
     t0 = time.monotonic()
     prop = a.prop.upper()
     mod = importlib.import_module(f"checks.{prop.lower()}")
@@ -578,12 +599,66 @@ def main(argv: list[str]) -> int:
     workers = a.workers or int(os.environ.get("VERIF_WORKERS") or 0) or min(16, os.cpu_count() or 1)
     if hasattr(mod, "prepare"):
         mod.prepare(a.tier, verif_seed)
+    slice_ = a.slice
+    sub = None
+    sub_agg_path = None
+    if slice_ == "auto":
+        if os.environ.get("VERIF_NO_OPT_SLICE") == "1" or sys.flags.optimize:
+            slice_ = "all"
+        else:
+            # a tenth of the batch runs under ``python -O`` (asserts compiled away): what the
+            # library returns must not depend on the interpreter mode
+            slice_ = "normal"
+            sub_agg_path = os.path.join(env.scratch(), "opt-slice-agg.pickle")
+            cmd = [env.PYTHON, "-O", os.path.join(env.VERIF_ROOT, "bin", "check"), prop, "--tier", a.tier,
+                   "--slice", "opt", "--agg-out", sub_agg_path, "--no-evidence",
+                   "--runs", str(n_runs), "--budget", str(budget), "--workers", str(max(2, workers // 4))]
+            if a.digests_out:
+                cmd += ["--digests-out", a.digests_out + ".opt"]
+            sub = subprocess.Popen(cmd, stdout=subprocess.PIPE, stderr=subprocess.STDOUT, text=True,
+                                   env={**os.environ, "VERIF_REPO": env.REPO})
     agg = run_batch(mod, a.tier, verif_seed, n_runs, budget, workers,
-                    keep_digests=bool(a.digests_out))
+                    keep_digests=bool(a.digests_out), slice_=slice_)
+    sub_rc = 0
+    sub_lines: list[str] = []
+    if sub is not None:
+        try:
+            sub_out, _ = sub.communicate(timeout=budget + 1200)
+        except subprocess.TimeoutExpired:
+            sub.kill()
+            sub_out, _ = sub.communicate()
+            agg.harness_errors.append("the -O sub-launcher did not finish")
+        sub_rc = sub.returncode
+        sub_lines = [ln for ln in (sub_out or "").splitlines()
+                     if ln.startswith(("VIOLATION", "KNOWN-FINDING", "violation candidate", "HARNESS",
+                                       "replay confirmed"))]
+        try:
+            with open(sub_agg_path, "rb") as f:
+                sub_agg = pickle.load(f)
+            sub_agg.violations = []  # judged (minimised, replayed, reported) by the sub-launcher itself
+            opt_runs = sub_agg.runs
+            agg.merge(sub_agg)
+            agg.sums["knobs"]["runs_under_python_-O"] = opt_runs
+        except Exception as e:  # noqa: BLE001
+            if sub_rc in (0, 1):
+                agg.harness_errors.append(f"the -O sub-launcher left no aggregate: {e!r}")
+        for ln in sub_lines:
+            print("[python -O slice] " + ln if not ln.startswith(("VIOLATION", "KNOWN-FINDING")) else ln)
+        if sub_rc not in (0, 1) and not any(ln.startswith("HARNESS") for ln in sub_lines):
+            agg.harness_errors.append(f"the -O sub-launcher exited {sub_rc}: {(sub_out or '')[-400:]}")
     wall_batch = time.monotonic() - t0
     if a.digests_out:
         with open(a.digests_out, "w", encoding="utf-8") as f:
             json.dump({str(k): v for k, v in sorted(agg.digests.items())}, f)
+        try:
+            os.unlink(a.digests_out + ".opt")
+        except OSError:
+            pass
+    if a.agg_out:
+        with open(a.agg_out, "wb") as f:
+            keep = agg.violations
+            pickle.dump(agg, f, protocol=pickle.HIGHEST_PROTOCOL)
+            agg.violations = keep
 
     rc = 0
     replay_path = None
@@ -646,11 +721,15 @@ def main(argv: list[str]) -> int:
                       f"reproduce from its replay file {rpath} (fresh-process exit {c}); "
                       "not reported as a violation")
             rc = 3
+    if sub_rc == 1:
+        rc = 1
+    elif sub_rc in (2, 3) and rc == 0:
+        rc = sub_rc
     if agg.harness_errors and rc == 0:
         for e in agg.harness_errors[:10]:
             print("HARNESS-ERROR " + e)
         rc = 2
-    if agg.runs == 0 and rc == 0:
+    if agg.runs == 0 and rc == 0 and slice_ != "opt":
         print("HARNESS-ERROR no run completed")
         rc = 2
     if rc == 0 and agg.discarded_runs * 2 > agg.runs:
